@@ -490,6 +490,41 @@ fn main_parse(args: &[String]) {
 			}
 		}
 	}
+	// ---- character sweep (C02, C03): every printable ASCII character and a few others as the first
+	// ---- and the last character of each component, and next to an escape; verdict and components
+	// ---- (the grammar decides which are allowed: TLC judges with InLang and Parts / AuthParts)
+	{
+		let chars: Vec<char> = (0x21u8..=0x7e).map(|b| b as char).chain(['\u{a0}', '\u{e9}', '\u{e000}', '\u{fffd}', '\u{10000}']).collect();
+		for &c in &chars {
+			for shape in 0..4 {
+				let x: String = match shape { 0 => format!("{c}x"), 1 => format!("x{c}"), 2 => format!("%41{c}"), _ => format!("{c}%41") };
+				for kind in 0..7 {
+					let w = match kind {
+						0 => format!("{x}://u@h:8/p?q#f"),
+						1 => format!("s://{x}@h:8/p?q#f"),
+						2 => format!("s://u@{x}:8/p?q#f"),
+						3 => format!("s://u@h:8/{x}/p?q#f"),
+						4 => format!("{x}/p?q#f"),
+						5 => format!("s://u@h:8/p?{x}#f"),
+						_ => format!("s://u@h:8/p?q#{x}"),
+					};
+					let w = w.as_str();
+					parse_event!(out, count, w, "IriRef", iref::iri::IriRef, |v: &iref::iri::IriRef| v.scheme().map(|x| x.as_str().to_string()), "sweep");
+					if w.is_ascii() {
+						parse_event!(out, count, w, "UriRef", iref::uri::UriRef, |v: &iref::uri::UriRef| v.scheme().map(|x| x.as_str().to_string()), "sweep");
+					}
+				}
+				// authorities: the character in the user info, in the host, in both
+				for a in [format!("{x}@h:8"), format!("u@{x}:8"), format!("{x}@{x}"), format!("{x}"), format!("u:{x}@h")] {
+					let a = a.as_str();
+					auth_event!(out, count, a, "iri", iri, Iri);
+					if a.is_ascii() {
+						auth_event!(out, count, a, "uri", uri, Uri);
+					}
+				}
+			}
+		}
+	}
 	for i in 0..n {
 		let base = gen_ref(&mut r);
 		let w: String = match i % 4 {
@@ -705,7 +740,10 @@ fn main_big(args: &[String]) {
 	use iref_verif_harness::alloc_count::allocs;
 	let mut out = std::io::LineWriter::new(File::create(&args[4]).expect("create events"));
 	let mut count = 0u64;
-	for (n, seglen) in [(20usize, 10usize), (17, 40), (700, 100), (300, 3), (10000, 100)] {
+	let mut shapes: Vec<(usize, usize)> = vec![(20usize, 10usize), (17, 40), (700, 100), (300, 3), (10000, 100)];
+	// segment COUNT sweep: 1..=70 and around 128, 256, 1024 one-character segments
+	shapes.extend((1..=70usize).chain(126..=130).chain(254..=258).chain(1022..=1026).map(|n| (n, 1usize)));
+	for (n, seglen) in shapes {
 		let seg: String = "abcdefghij".chars().cycle().take(seglen).collect();
 		let mut path = String::new();
 		for _ in 0..n {
@@ -815,7 +853,7 @@ fn main_big(args: &[String]) {
 	}
 	// ---- percent-decoded view of a very long segment (C19), before and after the reference went
 	// ---- through resolution (which leaves a reference with a scheme and no dot segment as it is)
-	for n in [500usize, 30000, 70000, 200000] {
+	for n in (0..=70usize).chain([127, 128, 129, 255, 256, 257, 500, 30000, 70000, 200000]) {
 		let text = format!("data:text/plain,{}", "%C3%A9".repeat(n));
 		for fam in ["iri", "uri"] {
 			pending(&json!({"ev": "big_pct", "fam": fam, "n": n, "panic": true, "msg": "process aborted"}));
@@ -866,15 +904,40 @@ fn main() {
 	let mut out = std::io::LineWriter::new(File::create(&args[4]).expect("create events"));
 	let mut r = StdRng::seed_from_u64(seed);
 	let mut n_events = 0u64;
-	for h in 0..histories {
+	// ---- scripted single calls: a component of length la is replaced by a value of length lb, with
+	// ---- every other component present (something always follows what is replaced)
+	let mut scripted: Vec<(String, &'static str, Option<String>)> = Vec::new();
+	{
+		const LENS: &[usize] = &[0, 1, 2, 7, 8, 15, 16, 31, 32, 63, 64, 65];
+		let fill = |c: char, l: usize| -> String { std::iter::repeat(c).take(l).collect() };
+		for &la in LENS {
+			for &lb in LENS {
+				scripted.push((format!("s{}://u@h:8/p/seg?q#f", fill('a', la)), "set_scheme", Some(format!("t{}", fill('b', lb)))));
+				scripted.push((format!("s://{}@{}:8/p/seg?q#f", fill('u', la), fill('h', la)), "set_authority", Some(format!("{}@g:{}", fill('v', lb), fill('9', lb % 6)))));
+				scripted.push((format!("s://u@h:8/{}/seg?q#f", fill('p', la)), "set_path", Some(format!("/{}/x", fill('r', lb)))));
+				scripted.push((format!("s://u@h:8/p/seg?{}#f", fill('q', la)), "set_query", Some(fill('k', lb))));
+				scripted.push((format!("s://u@h:8/p/seg?q#{}", fill('f', la)), "set_fragment", Some(fill('g', lb))));
+				scripted.push((format!("s://{}@h:8/p/seg?q#f", fill('u', la)), "set_userinfo", Some(fill('w', lb))));
+				scripted.push((format!("s://u@{}:8/p/seg?q#f", fill('h', la)), "set_host", Some(fill('i', lb))));
+				scripted.push((format!("s://u@h:{}/p/seg?q#f", fill('8', la)), "set_port", Some(fill('7', lb))));
+				scripted.push((format!("s://u@h:8/p/{}?q#f", fill('s', la)), "push", Some(fill('t', lb))));
+				scripted.push((format!("s://u@h:8/p/{}?q#f", fill('s', la)), "pop", Some(String::new())));
+			}
+		}
+	}
+	for h in 0..(histories + scripted.len()) {
+		let script = if h >= histories { Some(scripted[h - histories].clone()) } else { None };
 		// initial buffer: parsed, default, or built from a scheme
-		let mut text = match h % 7 {
-			0 => String::new(),
-			1 => format!("{}:", pick(&mut r, SCHEMES)),
-			_ => gen_ref(&mut r),
+		let mut text = match &script {
+			Some(s) => s.0.clone(),
+			None => match h % 7 {
+				0 => String::new(),
+				1 => format!("{}:", pick(&mut r, SCHEMES)),
+				_ => gen_ref(&mut r),
+			},
 		};
 		let use_uri = text.is_ascii() && r.gen_bool(0.5);
-		for _ in 0..steps {
+		for _ in 0..(if script.is_some() { 1 } else { steps }) {
 			let ascii = text.is_ascii();
 			let fam = if use_uri && ascii { "uri" } else { "iri" };
 			// kind: a text with a scheme may be held as a full URI/IRI or as a reference
@@ -882,7 +945,7 @@ fn main() {
 			let has_scheme = as_ref.scheme().is_some();
 			let has_auth = as_ref.authority().is_some();
 			let full = has_scheme && r.gen_bool(0.5);
-			let (op, arg) = gen_op(&mut r, full, has_auth);
+			let (op, arg) = match &script { Some(s) => (s.1, s.2.clone()), None => gen_op(&mut r, full, has_auth) };
 			if fam == "uri" && !arg.as_deref().unwrap_or("").is_ascii() {
 				continue;
 			}
